@@ -57,7 +57,11 @@ func doPair(r, o float64) string {
 		rc := r - 1
 		a := sampler.AddRatioSampleWithOffset(r, o)
 		b := sampler.AddRatioSampleWithOffset(rc, o)
-		out = f16(rc) + " " + b2s(a) + " " + b2s(b)
+		rcs := f16(rc)
+		if math.IsNaN(rc) {
+			rcs = "nan" // NaN payloads of arithmetic results are not part of the model
+		}
+		out = rcs + " " + b2s(a) + " " + b2s(b)
 	}); p {
 		return "panic"
 	}
